@@ -47,7 +47,7 @@ def _units(ctx, F):
                                 'no longer selects the text of the hit' % (rv['adt'], fld), line=st.get('l'), sink='%s.%s' % (rv['adt'], fld), detail='char-offset-as-byte-offset:%s.%s' % (rv['adt'], fld))
                     else:
                         ctx.ok('UNIT-C10d', f, '%s.%s does not derive from a character offset' % (rv['adt'], fld), line=st.get('l'))
-    ctx.floor('UNIT-C10d', n, 6, 'byte-offset sinks (ChunkInfo / SearchHit constructions)')
+    ctx.floor('UNIT-C10d', n, 3, 'byte-offset sinks (ChunkInfo / SearchHit constructions)')
 
 
 def run(ctx):
